@@ -185,8 +185,9 @@ def realize(heap, root=1):
 class Projector:
   """Real object graph -> canonical abstract heap (identity based)."""
 
-  def __init__(self, intern_leaf_tuples=False, sort_dicts=False):
+  def __init__(self, intern_leaf_tuples=False, sort_dicts=False, callable_leaves=False):
     self.sort_dicts = sort_dicts
+    self.callable_leaves = callable_leaves
     self.ids = {}
     self.keep = []
     self.heap = []
@@ -197,6 +198,15 @@ class Projector:
       return ['?', repr(x)]
     if isinstance(x, int):
       return LEAF_BACK.get(x, x) if LEAF_BACK else x
+    if self.callable_leaves:
+      import functools as _ft  # pylint: disable=g-import-not-at-top
+      if isinstance(x, _ft.partial) and not x.args and fn_id_of(x.func) != -1 and all(
+          isinstance(v, int) and not isinstance(v, bool) and v == 1000 + _slot_of(n)
+          for n, v in x.keywords.items() if isinstance(_slot_of(n), int)) and all(
+              isinstance(_slot_of(n), int) for n in x.keywords):
+        return 2000 + fn_id_of(x.func)      # nothing bound beyond the callable's own defaults
+      if callable(x) and not isinstance(x, (config_lib.Buildable, _ft.partial)) and fn_id_of(x) != -1:
+        return 2000 + fn_id_of(x)
     if isinstance(x, str):
       if x in LEAF_BACK:
         return LEAF_BACK[x]
@@ -228,6 +238,16 @@ class Projector:
         node['items'].append({'key': 1 if (is_tv and name == 'value') else _slot_of(name),
                               'val': 0 if v is None else self.val(v),
                               'tg': tag_mask(x.__argument_tags__.get(name, ()))})
+    elif self.callable_leaves and type(x).__name__ == 'partial' and hasattr(x, 'func'):
+      node['k'] = 'partial'
+      node['fn'] = fn_id_of(x.func)
+      for j, v in enumerate(x.args):
+        node['items'].append({'key': 100 + j, 'val': self.val(v), 'tg': 0})
+      for name in sorted(x.keywords, key=lambda n: str(_slot_of(n))):
+        v = x.keywords[name]
+        if isinstance(v, int) and not isinstance(v, bool) and 1000 <= v < 2000:
+          continue
+        node['items'].append({'key': _slot_of(name), 'val': self.val(v), 'tg': 0})
     elif inst is not None:
       node['k'] = 'inst'
       node['fn'] = inst.fn_id if isinstance(inst.fn_id, int) else -1
